@@ -72,6 +72,15 @@ func (l *Log) addIf(cond func() bool, line string) {
 	}
 }
 
+// addIfQuiet is addIf with a caller-chosen quiet period.
+func (l *Log) addIfQuiet(cond func() bool, line string, quiet time.Duration) {
+	l.mu.Lock()
+	defer l.mu.Unlock()
+	if time.Since(l.lastAt) >= quiet && cond() {
+		l.lines = append(l.lines, line)
+	}
+}
+
 func (l *Log) len() int {
 	l.mu.Lock()
 	defer l.mu.Unlock()
@@ -110,6 +119,7 @@ func okS(err error) string {
 
 var errInjected = errors.New("injected failure")
 var errClosed = errors.New("connection closed")
+var errReadTimeout = errors.New("read timeout")
 
 // ---------------------------------------------------------------- RecConn
 
@@ -130,6 +140,11 @@ type RecConn struct {
 	failFrom int          // every Send from the k-th on fails (0 = never)
 	sent     []packet.Generic
 	waiting  bool // a Receive call is blocked
+	// read timeout as set by the broker (SetReadTimeout): a Receive that finds nothing within it fails, as
+	// transport.BaseConn does; every value set is kept for the keep-alive clause
+	readTimeout  time.Duration
+	readTimeouts []time.Duration
+	expired      bool
 }
 
 func newRecConn(l *Log) *RecConn {
@@ -171,7 +186,21 @@ func (c *RecConn) Send(pkt packet.Generic, async bool) error {
 
 func (c *RecConn) Receive() (packet.Generic, error) {
 	c.mu.Lock()
+	var deadline time.Time
+	if c.readTimeout > 0 {
+		deadline = time.Now().Add(c.readTimeout)
+		tm := time.AfterFunc(c.readTimeout+time.Millisecond, c.inCond.Broadcast)
+		defer tm.Stop()
+	}
 	for len(c.in) == 0 && !c.closed {
+		if !deadline.IsZero() && !time.Now().Before(deadline) {
+			// silence for longer than the read timeout: the transport reports an error
+			c.expired = true
+			c.waiting = false
+			c.log.add("RxErr %%g")
+			c.mu.Unlock()
+			return nil, errReadTimeout
+		}
 		c.waiting = true
 		c.inCond.Wait()
 	}
@@ -203,7 +232,12 @@ func (c *RecConn) Close() error {
 }
 
 func (c *RecConn) SetReadLimit(int64)             {}
-func (c *RecConn) SetReadTimeout(time.Duration)   {}
+func (c *RecConn) SetReadTimeout(d time.Duration) {
+	c.mu.Lock()
+	c.readTimeout = d
+	c.readTimeouts = append(c.readTimeouts, d)
+	c.mu.Unlock()
+}
 func (c *RecConn) SetMaxWriteDelay(time.Duration) {}
 func (c *RecConn) LocalAddr() net.Addr            { return nil }
 func (c *RecConn) RemoteAddr() net.Addr           { return nil }
@@ -342,6 +376,8 @@ type ScriptBackend struct {
 	resumed     bool
 	fresh       bool
 	w, pp, ps   int
+	defaults    bool          // leave InflightMessages / ParallelPublishes / ParallelSubscribes at zero: the documented defaults (10) apply
+	maxKA       time.Duration // MaximumKeepAlive set during Setup (0 = leave the default)
 	tokenTO     time.Duration
 	restoreFail bool
 	failCall    map[string]int // "sub"|"unsub"|"pub"|"deq"|"term" -> k-th call of that kind fails
@@ -389,16 +425,25 @@ func (b *ScriptBackend) Setup(c *broker.Client, id string, clean bool) (broker.S
 		b.log.add("Setup %%g err")
 		return nil, false, errInjected
 	}
-	c.InflightMessages = b.w
-	c.ParallelPublishes = b.pp
-	c.ParallelSubscribes = b.ps
+	w, pp, ps := b.w, b.pp, b.ps
+	if b.defaults {
+		// nothing is configured: "Will default to 10" (broker.Client documentation) for all three
+		w, pp, ps = 10, 10, 10
+	} else {
+		c.InflightMessages = b.w
+		c.ParallelPublishes = b.pp
+		c.ParallelSubscribes = b.ps
+	}
+	if b.maxKA > 0 {
+		c.MaximumKeepAlive = b.maxKA
+	}
 	c.TokenTimeout = b.tokenTO
 	if b.fresh {
 		b.sess.op.Lock()
 		b.sess.inner = session.NewMemorySession()
 		b.sess.op.Unlock()
 	}
-	b.log.add("Setup %%g ok %s %s %d %d %d", hx.B01(b.resumed), hx.B01(b.fresh), b.w, b.pp, b.ps)
+	b.log.add("Setup %%g ok %s %s %d %d %d", hx.B01(b.resumed), hx.B01(b.fresh), w, pp, ps)
 	return b.sess, b.resumed, nil
 }
 
